@@ -107,6 +107,9 @@ def parse_template(path):
             sub_items, sub_meta = parse_template(os.path.join(os.path.dirname(path), rest.strip()))
             items.extend(sub_items)
             meta['gsubst'].extend(sub_meta['gsubst'])
+            for tr in sub_meta.get('trusted', []):
+                if tr not in meta.setdefault('trusted', []):
+                    meta['trusted'].append(tr)
         elif word == 'trusted':
             meta.setdefault('trusted', []).append(rest)
         elif word == 'assume':
